@@ -41,6 +41,7 @@ type Prog struct {
 	ptrWritesMemo   map[string][]ptrWrite
 	paramMap        map[*ssa.Function][]int
 	soleArgBusy     map[*ssa.Function]bool
+	droppedRef  map[*ssa.Function]map[string]int
 	// NormaliseLog: what normalise.go rewrote before the analysis (empty on the reference tree)
 	NormaliseLog []string
 }
